@@ -59,7 +59,7 @@ fn assemble(secs: &[(u8, Vec<u8>)]) -> Vec<u8> {
 
 /// structure-aware and byte-level mutations of a valid module
 pub fn mutate(r: &mut rand::rngs::StdRng, bytes: &[u8]) -> (Vec<u8>, &'static str) {
-    let k = r.gen_range(0..12);
+    let k = r.gen_range(0..14);
     let mut b = bytes.to_vec();
     match k {
         0 => {
@@ -136,6 +136,60 @@ pub fn mutate(r: &mut rand::rngs::StdRng, bytes: &[u8]) -> (Vec<u8>, &'static st
             let i = r.gen_range(0..=s.len());
             s.insert(i, (*[13u8, 14, 15, 20, 0x7f].iter().nth(r.gen_range(0..5)).unwrap(), vec![0]));
             (assemble(&s), "odd-section-id")
+        }
+        12 | 13 => {
+            // rewrite the locals declaration of one function body: prepend a run (count 0, 1 or huge) of a value type that
+            // may or may not be supported, keeping every enclosing size field consistent
+            let mut s = sections(&b);
+            let Some(ci) = s.iter().position(|(id, _)| *id == 10) else { return (b, "none") };
+            let code = s[ci].1.clone();
+            // decode: count, then entries (size, bytes)
+            let rd = |buf: &[u8], i: &mut usize| -> u64 {
+                let mut v = 0u64;
+                let mut sh = 0;
+                while *i < buf.len() {
+                    let x = buf[*i];
+                    *i += 1;
+                    v |= ((x & 0x7f) as u64) << sh;
+                    sh += 7;
+                    if x & 0x80 == 0 || sh > 35 {
+                        break;
+                    }
+                }
+                v
+            };
+            let mut i = 0;
+            let n = rd(&code, &mut i) as usize;
+            let mut bodies: Vec<Vec<u8>> = vec![];
+            for _ in 0..n {
+                let sz = rd(&code, &mut i) as usize;
+                if i + sz > code.len() {
+                    return (b, "none");
+                }
+                bodies.push(code[i..i + sz].to_vec());
+                i += sz;
+            }
+            if bodies.is_empty() {
+                return (b, "none");
+            }
+            let which = r.gen_range(0..bodies.len());
+            let body = &bodies[which];
+            let mut j = 0;
+            let nruns = rd(body, &mut j);
+            let tys: [&[u8]; 12] = [&[0x7f], &[0x7e], &[0x7b], &[0x70], &[0x6f], &[0x6e], &[0x69], &[0x6c], &[0x63, 0x00], &[0x64, 0x05], &[0x40], &[0x00]];
+            let count = *[0u64, 0, 1, 1, 50_001, 0xffff_ffff].iter().nth(r.gen_range(0..6)).unwrap();
+            let mut nb = leb(nruns + 1);
+            nb.extend(leb(count));
+            nb.extend_from_slice(tys[r.gen_range(0..tys.len())]);
+            nb.extend_from_slice(&body[j..]);
+            bodies[which] = nb;
+            let mut nc = leb(n as u64);
+            for bd in &bodies {
+                nc.extend(leb(bd.len() as u64));
+                nc.extend(bd);
+            }
+            s[ci].1 = nc;
+            (assemble(&s), "locals-run")
         }
         10 => {
             b[4] = r.gen_range(0..3);
